@@ -1213,6 +1213,43 @@ pub fn generate_c13(tier: &str, seed: u64, out: &mut Out) {
     for t in ["${x:y}", "${x:y}, a", "b, ${x:y}, a", "a, ${misc:Depends}", "${shlibs:Depends}, ${misc:Depends}, b | a", "a, ${x:y},", "${x:y} , a"] {
         out.req("rel.wrap", &[es(t), "1".into()]);
     }
+    // relations that compare equal but are written differently (architecture order, explicit zero
+    // epoch, version spelling), in every spacing variant and both orders, as alternatives and as
+    // entries: the textual tie-break must be taken on the normalised text, whatever the input layout
+    let twins: [(&str, &str); 5] = [
+        ("foo [a b]", "foo [b a]"),
+        ("a (>= 0:1)", "a (>= 1)"),
+        ("a (= 1.0-0)", "a (= 1.0)"),
+        ("p <x y>", "p <x  y>"),
+        ("q:any (<< 2)", "q:any (<<2)"),
+    ];
+    let spaced = |r: &str| -> Vec<String> {
+        vec![r.to_string(), r.replacen(' ', "  ", 1), r.replace(' ', "   "), format!(" {}", r), r.replacen(' ', "\n ", 1)]
+    };
+    for (x, y) in twins.iter() {
+        for vx in spaced(x) {
+            for vy in spaced(y) {
+                for (l, r) in [(&vx, &vy), (&vy, &vx)] {
+                    out.req("rel.wrap", &[es(&format!("{} | {}", l, r)), "0".into()]);
+                    out.req("rel.wrap", &[es(&format!("{}, {}", l, r)), "0".into()]);
+                    out.req("rel.wrap", &[es(&format!("z, {} | {}, b", l, r)), "0".into()]);
+                }
+            }
+        }
+    }
+    // terms of a bracket group separated by every kind of blank: space, tab, bare newline, newline
+    // plus indentation, several of them
+    for sep in [" ", "\t", "\n", "\n ", "  ", " \n\t ", "\r\n"] {
+        for t in [
+            format!("foo <!nocheck{}!cross> <stage1>, bar", sep),
+            format!("foo <a{}b{}c>", sep, sep),
+            format!("foo [amd64{}i386], bar [!a{}!b]", sep, sep),
+            format!("foo (>={}1), bar{}(<< 2)", sep, sep),
+            format!("b{}|{}a,{}c", sep, sep, sep),
+        ] {
+            out.req("rel.wrap", &[es(&t), "0".into()]);
+        }
+    }
     // the C10 field generator: every layout, wild constructs included
     let n = if thorough { 300_000 } else { 30_000 };
     for k in 0..n {
